@@ -8,6 +8,7 @@
 #include <vector>
 #include <unordered_map>
 #include <sndfile.h>
+#include <csetjmp>
 #include "rng.hpp"
 
 enum IoClass { IO_READ, IO_WRITE, IO_SEEK, IO_TELL, IO_LEN, IO_OPEN, IO_CLOSE, IO_TRUNC, IO_SYNC, IO_CLASS_COUNT } ;
@@ -110,6 +111,16 @@ struct SimOS
 	int last_fault_kind = F_NONE ;
 	bool swallow_stdout = true ;
 	uint64_t chatter = 0 ;
+	// step-budget overrun is delivered to the executor by longjmp out of the library call (the handle is abandoned)
+	jmp_buf jb ;
+	bool jmp_armed = false ;
+	// optional recording of every I/O step (fault-point enumeration)
+	struct IoRec { int task, op, io, cls ; bool vio ; } ;
+	bool record_io = false ;
+	std::vector<IoRec> io_log ;
+	// store contents at the instant the first failing fault fired (C15 store.prefix)
+	bool have_fault_snapshot = false ;
+	std::map<std::string, std::vector<uint8_t>> fault_snapshot ;
 
 	void reset () ;
 	SimFileP file (const std::string &name, bool create = true) ;
